@@ -334,7 +334,10 @@ func runC20(res *Result, tier string, rnd *Rand, replay string) {
 			_ = os.WriteFile(filepath.Join(dir, "old.sysl"), []byte(c.Model.OldText), 0o644)
 			ctx, cancel := context.WithTimeout(context.Background(), 90*time.Second)
 			defer cancel()
-			cmd := exec.CommandContext(ctx, bin, c.Cmd.Args...)
+			// a hard cap on the address space: a command that recurses without end fails fast with a runtime
+			// fatal error instead of eating the machine until the time limit
+			shArgs := []string{"-c", `ulimit -v 6000000; exec "$0" "$@"`, bin}
+			cmd := exec.CommandContext(ctx, "/bin/sh", append(shArgs, c.Cmd.Args...)...)
 			cmd.Dir = dir
 			cmd.Env = append(os.Environ(), "GOMEMLIMIT=2GiB", "GOTRACEBACK=single")
 			var buf, so bytes.Buffer
